@@ -202,7 +202,9 @@ fn judge(line: &str, n: usize, batch: &str, fin: bool) -> Result<(), String> {
             return Err(format!("C03: items {lost:?} were accepted (send returned Ok) and then dropped with their batch when it outgrew the frame limit; the subscriber yielded [{line}]"));
         }
     }
-    Err(format!("C03: subscriber yielded [{line}] for {n} items sent (batch {batch}, finish={fin}): not exactly the accepted items {accepted:?}"))
+    // (what the subscriber yields went through the composition on the wire - encode, batch, compress, then decompress, unbatch,
+    // decode - inside the real Publisher and Subscriber: a value that comes out wrong or as an error is C14's matter too)
+    Err(format!("C03/C14: subscriber yielded [{line}] for {n} items sent (batch {batch}, finish={fin}): not exactly the accepted items {accepted:?}"))
 }
 
 pub fn run(cfg: &Cfg) {
